@@ -5,6 +5,8 @@ import (
 	"fmt"
 	"hash/fnv"
 	"path/filepath"
+	"reflect"
+	"strings"
 
 	"github.com/free5gc/nas"
 
@@ -31,7 +33,13 @@ func sharedWireForms() [][]byte {
 	if sharedWire != nil {
 		return sharedWire
 	}
-	out := [][]byte{gmmMsg}
+	// hand-written messages with realistic contents (a DNN of several labels, an S-NSSAI with SD, a SUCI)
+	dnn := append([]byte{3}, "ims"...)
+	dnn = append(append(dnn, 6), "mnc001"...)
+	dnn = append(append(dnn, 6), "mcc001"...)
+	dnn = append(append(dnn, 4), "gprs"...)
+	ulnas := append(unhex("7e006701"+"0005"+"2e0101c1ff"+"1205"+"22"+"04"+"01010203"), append([]byte{0x25, byte(len(dnn))}, dnn...)...)
+	out := [][]byte{gmmMsg, ulnas}
 	msgOnce.Do(func() {
 		msgSpec, msgError = refcodec.Load(filepath.Join(verifDir(), "mc", "spec", "ts24501_msgs.json"))
 	})
@@ -89,6 +97,49 @@ func ReadShared(s *Shared) string {
 			err = m.GsmMessageEncode(buf)
 		}
 		fmt.Fprintf(h, "%x %v;", buf.Bytes(), err)
+	}
+	// every read accessor (Get…, no arguments) of every element of every shared message
+	for _, m := range s.Msgs {
+		for _, fam := range []any{m.GmmMessage, m.GsmMessage} {
+			fv := reflect.ValueOf(fam)
+			if fv.IsNil() {
+				continue
+			}
+			fs := fv.Elem()
+			for i := 0; i < fs.NumField(); i++ {
+				body := fs.Field(i)
+				if body.Kind() != reflect.Ptr || body.IsNil() || body.Elem().Kind() != reflect.Struct {
+					continue
+				}
+				bs := body.Elem()
+				for j := 0; j < bs.NumField(); j++ {
+					el := bs.Field(j)
+					if el.Kind() == reflect.Struct && el.CanAddr() {
+						el = el.Addr()
+					}
+					if el.Kind() != reflect.Ptr || el.IsNil() {
+						continue
+					}
+					t := el.Type()
+					for k := 0; k < t.NumMethod(); k++ {
+						mt := t.Method(k)
+						if !strings.HasPrefix(mt.Name, "Get") || mt.Type.NumIn() != 1 {
+							continue
+						}
+						func() {
+							defer func() {
+								if e := recover(); e != nil {
+									fmt.Fprintf(h, "%s.%s panic;", bs.Type().Field(j).Name, mt.Name)
+								}
+							}()
+							for _, r := range el.Method(k).Call(nil) {
+								fmt.Fprintf(h, "%v;", r.Interface())
+							}
+						}()
+					}
+				}
+			}
+		}
 	}
 	m := s.Msgs[0]
 	rr := m.GmmMessage.RegistrationRequest
